@@ -12,25 +12,25 @@ import (
 
 // Fixed tolerances of the uv-identities group (see NOTES.md).
 const (
-	tolSurvRel   = 1e-9  // |S+C-1| <= tolSurvRel*min(S,C) + tolSurvAbs
-	tolSurvAbs   = 1e-15 //
-	tolProbExp   = 1e-12 // Prob vs exp(LogProb), relative
-	tolCellAbs   = 1e-7  // CDF(b)-CDF(a) vs quadrature, absolute (continuous)
-	tolCellRel   = 1e-7  //   ... plus relative to the cell probability
-	tolMassAbs   = 1e-7  // total mass vs 1
-	tolPMF       = 1e-10 // discrete: CDF(k)-CDF(k-1) vs Prob(k), absolute
-	tolQInvRel   = 1e-8  // |CDF(Quantile(p))-p| <= tolQInvRel*min(p,1-p) + tolQInvAbs
-	tolQInvAbs   = 1e-12
-	tolMoment    = 1e-6 // closed-form moments vs quadrature: relative, plus absolute tolMoment*scale
-	tolStdDev    = 1e-12
-	tolMedian    = 1e-9
-	tolModeRel   = 1e-9
-	tolScoreRel  = 1e-5
-	tolScoreAbs  = 1e-5 // times 1/scale of the parameter
-	modeGridN    = 2000
-	fitN         = 400
-	tolFitLL     = 1e-9
-	tolFitParam  = 1e-9
+	tolSurvRel  = 1e-9  // |S+C-1| <= tolSurvRel*min(S,C) + tolSurvAbs
+	tolSurvAbs  = 1e-15 //
+	tolProbExp  = 1e-12 // Prob vs exp(LogProb), relative
+	tolCellAbs  = 1e-7  // CDF(b)-CDF(a) vs quadrature, absolute (continuous)
+	tolCellRel  = 1e-7  //   ... plus relative to the cell probability
+	tolMassAbs  = 1e-7  // total mass vs 1
+	tolPMF      = 1e-10 // discrete: CDF(k)-CDF(k-1) vs Prob(k), absolute
+	tolQInvRel  = 1e-8  // |CDF(Quantile(p))-p| <= tolQInvRel*min(p,1-p) + tolQInvAbs
+	tolQInvAbs  = 1e-12
+	tolMoment   = 1e-6 // closed-form moments vs quadrature: relative, plus absolute tolMoment*scale
+	tolStdDev   = 1e-12
+	tolMedian   = 1e-9
+	tolModeRel  = 1e-9
+	tolScoreRel = 1e-5
+	tolScoreAbs = 1e-5 // times 1/scale of the parameter
+	modeGridN   = 2000
+	fitN        = 400
+	tolFitLL    = 1e-9
+	tolFitParam = 1e-9
 )
 
 var pGrid = []float64{1e-6, 1e-3, .01, .1, .25, .5, .75, .9, .99, 1 - 1e-3, 1 - 1e-6}
@@ -66,9 +66,9 @@ type uvCtx struct {
 	hi  float64
 	ord float64
 	// continuous laws: quantile points (finite, inside support, increasing)
-	qx []float64
-	qp []float64
-	evals int64
+	qx     []float64
+	qp     []float64
+	evals  int64
 	momTol float64
 	// probLogMismatch: Prob and exp(LogProb) disagree somewhere; the quadrature then
 	// integrates Prob (the identities are stated for Prob) instead of exp(LogProb).
